@@ -11,6 +11,7 @@ CONSTANTS
  Withs = {TRUE, FALSE}
  Chunks = {1, 2, 7}
  LyingSizes = TRUE
+ LieMax = 2
  InlineData = TRUE
  Conc = 3
  Probes = TRUE
@@ -19,6 +20,7 @@ CONSTANTS
  TarUnverified = FALSE
  MTs = {TRUE, FALSE}
  DigestHdrs = {"absent", "echo", "served"}
+ Trailers = {FALSE}
  Sts = {"std", "alt"}
  DropKinds = {"ueof", "reset"}
 INIT GInit
